@@ -1349,14 +1349,17 @@ theorem curSet_cursors [DecidableEq K] (st : StrictTotal gt) (d : Db K V) (inv :
 
 /-! ### histories of mutations with a tracked cursor -/
 
-/-- one mutating call, or a repositioning of some cursor (`move`: the result of any
-    `iwkv_cursor_to / to_key` of cursor `c`, whatever it is) -/
+/-- one mutating call, or a repositioning of some cursor: `next` / `prev` are `iwkv_cursor_to` with
+    `IWKV_CURSOR_NEXT / PREV`, `move` stands for any other repositioning of cursor `c` (a seek, a jump
+    to an end), whatever position it yields -/
 inductive Mut (K V : Type) where
   | put (k : K) (v : V) (lvl : Nat)
   | del (k : K)
   | cset (c : Nat) (v : V)
   | cdel (c : Nat)
   | move (c : Nat) (q : CPos)
+  | next (c : Nat)
+  | prev (c : Nat)
 
 /-- the record under cursor `c` -/
 def recAt (d : Db K V) (c : Nat) : Option (K × V) := (curPos d c).bind (curRec d)
@@ -1369,6 +1372,31 @@ def stepMut (gt : K → K → Bool) (d : Db K V) : Mut K V → Db K V
   | .cset c v => match curPos d c with | some p => curSet d p v | none => d
   | .cdel c => match curPos d c with | some p => curDel d p | none => d
   | .move c q => setCur d c q
+  | .next c => match curPos d c with | some p => setCur d c (curNext d p).1 | none => d
+  | .prev c => match curPos d c with | some p => setCur d c (curPrev d p).1 | none => d
+
+/-- the step repositions cursor `c` -/
+def repositions (c : Nat) : Mut K V → Bool
+  | .move c' _ => c' = c
+  | .next c' => c' = c
+  | .prev c' => c' = c
+  | _ => false
+
+/-- the record the step hands to cursor `c` (a successful NEXT / PREV of that cursor) -/
+def retOf (c : Nat) (d : Db K V) : Mut K V → Option (K × V)
+  | .next c' =>
+    if c' = c then
+      match curPos d c with
+      | some p => if (curNext d p).2 then curRec d (curNext d p).1 else none
+      | none => none
+    else none
+  | .prev c' =>
+    if c' = c then
+      match curPos d c with
+      | some p => if (curPrev d p).2 then curRec d (curPrev d p).1 else none
+      | none => none
+    else none
+  | _ => none
 
 /-- keys the step removes -/
 def mutDel (d : Db K V) : Mut K V → List K
@@ -1387,7 +1415,7 @@ def mutTouch (d : Db K V) : Mut K V → List K
   | .del k => [k]
   | .cset c _ => keyAt d c
   | .cdel c => keyAt d c
-  | .move _ _ => []
+  | _ => []
 
 def runMut (gt : K → K → Bool) : Db K V → List (Mut K V) → Db K V
   | d, [] => d
@@ -1396,6 +1424,11 @@ def runMut (gt : K → K → Bool) : Db K V → List (Mut K V) → Db K V
 def runDel (gt : K → K → Bool) : Db K V → List (Mut K V) → List K
   | _, [] => []
   | d, m :: ms => mutDel d m ++ runDel gt (stepMut gt d m) ms
+
+/-- the records handed to cursor `c` along the history, in order -/
+def runRet (gt : K → K → Bool) (c : Nat) : Db K V → List (Mut K V) → List (K × V)
+  | _, [] => []
+  | d, m :: ms => (retOf c d m).toList ++ runRet gt c (stepMut gt d m) ms
 
 def runPut : List (Mut K V) → List K
   | [] => []
@@ -1576,10 +1609,12 @@ theorem stepMut_inv (st : StrictTotal gt) (d : Db K V) (inv : NodeInv gt d.nodes
         have h := curDel_core st d inv p0 hr
         exact ⟨h.2, by rw [h.1]; exact desc_specDel st inv.2 k⟩
   | move c q => exact inv
+  | next c => simp only [stepMut]; split <;> exact inv
+  | prev c => simp only [stepMut]; split <;> exact inv
 
 /-- one step of a history, seen from a cursor the step does not reposition -/
 theorem step_tracks (st : StrictTotal gt) (d : Db K V) (inv : NodeInv gt d.nodes) (m : Mut K V) (c : Nat) (p : CPos)
-    (hc : curPos d c = some p) (hp : CurOk d.nodes p) (hmv : ∀ q, m ≠ .move c q) :
+    (hc : curPos d c = some p) (hp : CurOk d.nodes p) (hmv : repositions c m = false) :
     ∃ p1, curPos (stepMut gt d m) c = some p1 ∧ CurOk (stepMut gt d m).nodes p1 ∧
       StepFacts (aheadN d.nodes p) (aheadN (stepMut gt d m).nodes p1) (mutDel d m) (mutPut m) (mutTouch d m) ∧
       StepFacts (aheadP d.nodes p) (aheadP (stepMut gt d m).nodes p1) (mutDel d m) (mutPut m) (mutTouch d m) := by
@@ -1649,13 +1684,25 @@ theorem step_tracks (st : StrictTotal gt) (d : Db K V) (inv : NodeInv gt d.nodes
         · rw [h3]; exact facts_del _ k
   | move c' q =>
     simp only [stepMut, mutDel, mutPut, mutTouch]
-    have hne : c' ≠ c := fun e => hmv q (by rw [e])
+    have hne : c' ≠ c := by simpa [repositions] using hmv
     exact hnop (setCur d c' q) rfl (curPos_setCur_ne d q hne)
+  | next c' =>
+    simp only [stepMut, mutDel, mutPut, mutTouch]
+    have hne : c' ≠ c := by simpa [repositions] using hmv
+    cases hc' : curPos d c' with
+    | none => exact hnop d rfl rfl
+    | some p0 => exact hnop (setCur d c' _) rfl (curPos_setCur_ne d _ hne)
+  | prev c' =>
+    simp only [stepMut, mutDel, mutPut, mutTouch]
+    have hne : c' ≠ c := by simpa [repositions] using hmv
+    cases hc' : curPos d c' with
+    | none => exact hnop d rfl rfl
+    | some p0 => exact hnop (setCur d c' _) rfl (curPos_setCur_ne d _ hne)
 
 /-- a whole history, seen from a cursor it does not reposition -/
 theorem run_tracks (st : StrictTotal gt) (c : Nat) (ms : List (Mut K V)) :
     ∀ (d : Db K V) (p : CPos), NodeInv gt d.nodes → curPos d c = some p → CurOk d.nodes p →
-      (∀ m ∈ ms, ∀ q, m ≠ .move c q) →
+      (∀ m ∈ ms, repositions c m = false) →
       NodeInv gt (runMut gt d ms).nodes ∧
       ∃ p', curPos (runMut gt d ms) c = some p' ∧ CurOk (runMut gt d ms).nodes p' ∧
         StepFacts (aheadN d.nodes p) (aheadN (runMut gt d ms).nodes p') (runDel gt d ms) (runPut ms) (runTouch gt d ms) ∧
@@ -1725,6 +1772,8 @@ theorem step_keys (st : StrictTotal gt) (d : Db K V) (inv : NodeInv gt d.nodes) 
         rw [(curDel_core st d inv p0 hr).1, mem_specDel st inv.2] at hr'
         exact Or.inl ⟨⟨r, hr'.1, rfl⟩, by simpa using hr'.2⟩
   | move c q => exact hnop
+  | next c => simp only [stepMut, mutDel, mutPut]; split <;> exact hnop
+  | prev c => simp only [stepMut, mutDel, mutPut]; split <;> exact hnop
 
 omit [DecidableEq K] in
 theorem absent_run (st : StrictTotal gt) (k : K) (ms : List (Mut K V)) :
@@ -1761,6 +1810,202 @@ theorem run_dead (st : StrictTotal gt) (ms : List (Mut K V)) :
       · exact h3 (e ▸ h1)
       · rw [mutPut_of_mutDel h1] at h3; simp at h3
     · exact ih (stepMut gt d m) (stepMut_inv st d inv m) k h
+
+/-! #### the tracked cursor scans on while the store changes -/
+
+omit [DecidableEq K] in
+/-- a NEXT that reports not-found leaves a usable position with the same (empty) `aheadN` -/
+theorem next_false (d : Db K V) (p : CPos) (hp : CurOk d.nodes p) (h : (curNext d p).2 = false) :
+    CurOk d.nodes (curNext d p).1 ∧ aheadN d.nodes (curNext d p).1 = aheadN d.nodes p := by
+  cases p with
+  | head => simp only [curNext] at h ⊢; split at h <;> simp_all [CurOk]
+  | tail => exact ⟨trivial, rfl⟩
+  | void => exact ⟨trivial, rfl⟩
+  | «at» i j s =>
+    simp only [curNext] at h ⊢
+    split at h
+    · cases h
+    · rename_i hs
+      split at h
+      · split at h
+        · cases h
+        · rename_i h1 h2
+          simp only [h1, h2, if_true, if_false, hs]
+          exact ⟨hp, by simp [aheadN, hs]⟩
+      · cases h
+
+omit [DecidableEq K] in
+theorem prev_false (d : Db K V) (p : CPos) (hp : CurOk d.nodes p) (h : (curPrev d p).2 = false) :
+    CurOk d.nodes (curPrev d p).1 ∧ aheadP d.nodes (curPrev d p).1 = aheadP d.nodes p := by
+  cases p with
+  | tail => simp only [curPrev] at h ⊢; split at h <;> simp_all [CurOk]
+  | head => exact ⟨trivial, rfl⟩
+  | void => exact ⟨trivial, rfl⟩
+  | «at» i j s =>
+    simp only [curPrev] at h ⊢
+    split at h
+    · cases h
+    · rename_i hs
+      split at h
+      · split at h
+        · rename_i h1 h2
+          subst h1 h2
+          exact ⟨by simpa [hs, CurOk] using hp, by simp [aheadP, hs]⟩
+        · cases h
+      · cases h
+
+omit [DecidableEq K] in
+theorem curPos_setCur_self (d : Db K V) (c : Nat) (q : CPos) : curPos (setCur d c q) c = some q := by
+  simp [curPos, setCur]
+
+omit [DecidableEq K] in
+/-- a record handed to a cursor is a live record of the store at that moment -/
+theorem ret_live {c : Nat} {d : Db K V} {m : Mut K V} {r : K × V} (h : retOf c d m = some r) : r ∈ flatten d.nodes := by
+  have key : ∀ q, curRec d q = some r → r ∈ flatten d.nodes := by
+    intro q hq
+    obtain ⟨i, j, s, pre, lower, post, t, u, rfl, e, hl, e2, hl2⟩ := curRec_split hq
+    rw [e, flatten_append, flatten_cons, e2]; simp
+  cases m with
+  | next c' =>
+    simp only [retOf] at h
+    split at h
+    · split at h
+      · split at h
+        · exact key _ h
+        · cases h
+      · cases h
+    · cases h
+  | prev c' =>
+    simp only [retOf] at h
+    split at h
+    · split at h
+      · split at h
+        · exact key _ h
+        · cases h
+      · cases h
+    · cases h
+  | put k v lvl => cases h
+  | del k => cases h
+  | cset c' v => cases h
+  | cdel c' => cases h
+  | move c' q => cases h
+
+theorem facts_frame {A A1 : List (K × V)} {D Pu T : List K} (X Y : List (K × V)) (h : StepFacts A A1 D Pu T) :
+    StepFacts (X ++ A ++ Y) (X ++ A1 ++ Y) D Pu T := by
+  refine ⟨?_, ?_, ?_⟩
+  · simp only [List.map_append, List.filter_append]
+    exact (List.filter_sublist.append h.surv).append List.filter_sublist
+  · simp only [List.map_append, List.filter_append]
+    exact (List.filter_sublist.append h.orig).append List.filter_sublist
+  · simp only [List.filter_append, h.same]
+
+/-- one step, the tracked cursor `c` possibly doing NEXT: what it is handed plus what lies ahead
+    afterwards relates to what lay ahead before as `StepFacts` says -/
+theorem step_scanN (st : StrictTotal gt) (d : Db K V) (inv : NodeInv gt d.nodes) (m : Mut K V) (c : Nat) (p : CPos)
+    (hc : curPos d c = some p) (hp : CurOk d.nodes p) (hmv : repositions c m = true → m = .next c) :
+    ∃ p1, curPos (stepMut gt d m) c = some p1 ∧ CurOk (stepMut gt d m).nodes p1 ∧
+      StepFacts (aheadN d.nodes p) ((retOf c d m).toList ++ aheadN (stepMut gt d m).nodes p1)
+        (mutDel d m) (mutPut m) (mutTouch d m) := by
+  by_cases hr : repositions c m = true
+  · rw [hmv hr]
+    simp only [stepMut, hc, retOf, if_true, mutDel, mutPut, mutTouch]
+    refine ⟨(curNext d p).1, curPos_setCur_self _ _ _, ?_⟩
+    have hs := next_step d inv.1 p hp
+    cases hb : (curNext d p).2 with
+    | true =>
+      obtain ⟨r, h1, h2, h3⟩ := hs.1 hb
+      refine ⟨h3, ?_⟩
+      simp only [if_true, h1, Option.toList_some, setCur]
+      rw [h2]; exact facts_nop _
+    | false =>
+      obtain ⟨h1, h2⟩ := next_false d p hp hb
+      refine ⟨h1, ?_⟩
+      simp only [Bool.false_eq_true, if_false, Option.toList_none, List.nil_append, setCur, h2]
+      exact facts_nop _
+  · have hr' : repositions c m = false := by simpa using hr
+    obtain ⟨p1, h1, h2, h3, _⟩ := step_tracks st d inv m c p hc hp hr'
+    refine ⟨p1, h1, h2, ?_⟩
+    have : retOf c d m = none := by
+      cases m <;> simp_all [retOf, repositions]
+    rw [this]; exact h3
+
+/-- the same with PREV: what is handed over goes to the back -/
+theorem step_scanP (st : StrictTotal gt) (d : Db K V) (inv : NodeInv gt d.nodes) (m : Mut K V) (c : Nat) (p : CPos)
+    (hc : curPos d c = some p) (hp : CurOk d.nodes p) (hmv : repositions c m = true → m = .prev c) :
+    ∃ p1, curPos (stepMut gt d m) c = some p1 ∧ CurOk (stepMut gt d m).nodes p1 ∧
+      StepFacts (aheadP d.nodes p) (aheadP (stepMut gt d m).nodes p1 ++ (retOf c d m).toList)
+        (mutDel d m) (mutPut m) (mutTouch d m) := by
+  by_cases hr : repositions c m = true
+  · rw [hmv hr]
+    simp only [stepMut, hc, retOf, if_true, mutDel, mutPut, mutTouch]
+    refine ⟨(curPrev d p).1, curPos_setCur_self _ _ _, ?_⟩
+    have hs := prev_step d inv.1 p hp
+    cases hb : (curPrev d p).2 with
+    | true =>
+      obtain ⟨r, h1, h2, h3⟩ := hs.1 hb
+      refine ⟨h3, ?_⟩
+      simp only [if_true, h1, Option.toList_some, setCur]
+      rw [h2]; exact facts_nop _
+    | false =>
+      obtain ⟨h1, h2⟩ := prev_false d p hp hb
+      refine ⟨h1, ?_⟩
+      simp only [Bool.false_eq_true, if_false, Option.toList_none, List.append_nil, setCur, h2]
+      exact facts_nop _
+  · have hr' : repositions c m = false := by simpa using hr
+    obtain ⟨p1, h1, h2, _, h3⟩ := step_tracks st d inv m c p hc hp hr'
+    refine ⟨p1, h1, h2, ?_⟩
+    have : retOf c d m = none := by
+      cases m <;> simp_all [retOf, repositions]
+    rw [this]; simpa using h3
+
+/-- a history in which the tracked cursor `c` moves only by NEXT -/
+theorem run_scanN (st : StrictTotal gt) (c : Nat) (ms : List (Mut K V)) :
+    ∀ (d : Db K V) (p : CPos), NodeInv gt d.nodes → curPos d c = some p → CurOk d.nodes p →
+      (∀ m ∈ ms, repositions c m = true → m = .next c) →
+      NodeInv gt (runMut gt d ms).nodes ∧
+      ∃ p', curPos (runMut gt d ms) c = some p' ∧ CurOk (runMut gt d ms).nodes p' ∧
+        StepFacts (aheadN d.nodes p) (runRet gt c d ms ++ aheadN (runMut gt d ms).nodes p')
+          (runDel gt d ms) (runPut ms) (runTouch gt d ms) := by
+  induction ms with
+  | nil =>
+    intro d p inv hc hp _
+    exact ⟨inv, p, hc, hp, facts_nop _⟩
+  | cons m ms ih =>
+    intro d p inv hc hp hmv
+    obtain ⟨p1, hc1, hp1, hN1⟩ := step_scanN st d inv m c p hc hp (hmv m (List.mem_cons_self ..))
+    obtain ⟨inv', p', hc', hp', hN⟩ := ih (stepMut gt d m) p1 (stepMut_inv st d inv m) hc1 hp1
+      (fun m' hm' => hmv m' (List.mem_cons_of_mem _ hm'))
+    refine ⟨inv', p', hc', hp', ?_⟩
+    have := facts_frame (retOf c d m).toList [] hN
+    simp only [List.append_nil] at this
+    simp only [runRet, runMut, List.append_assoc]
+    exact facts_trans hN1 this
+
+/-- a history in which the tracked cursor `c` moves only by PREV -/
+theorem run_scanP (st : StrictTotal gt) (c : Nat) (ms : List (Mut K V)) :
+    ∀ (d : Db K V) (p : CPos), NodeInv gt d.nodes → curPos d c = some p → CurOk d.nodes p →
+      (∀ m ∈ ms, repositions c m = true → m = .prev c) →
+      NodeInv gt (runMut gt d ms).nodes ∧
+      ∃ p', curPos (runMut gt d ms) c = some p' ∧ CurOk (runMut gt d ms).nodes p' ∧
+        StepFacts (aheadP d.nodes p) (aheadP (runMut gt d ms).nodes p' ++ (runRet gt c d ms).reverse)
+          (runDel gt d ms) (runPut ms) (runTouch gt d ms) := by
+  induction ms with
+  | nil =>
+    intro d p inv hc hp _
+    exact ⟨inv, p, hc, hp, by simpa [runRet, runMut, runDel, runPut, runTouch] using facts_nop (aheadP d.nodes p)⟩
+  | cons m ms ih =>
+    intro d p inv hc hp hmv
+    obtain ⟨p1, hc1, hp1, hP1⟩ := step_scanP st d inv m c p hc hp (hmv m (List.mem_cons_self ..))
+    obtain ⟨inv', p', hc', hp', hP⟩ := ih (stepMut gt d m) p1 (stepMut_inv st d inv m) hc1 hp1
+      (fun m' hm' => hmv m' (List.mem_cons_of_mem _ hm'))
+    refine ⟨inv', p', hc', hp', ?_⟩
+    have := facts_frame [] (retOf c d m).toList hP
+    simp only [List.nil_append] at this
+    have e : (retOf c d m).toList.reverse = (retOf c d m).toList := by
+      cases retOf c d m <;> rfl
+    simp only [runRet, runMut, List.reverse_append, e, ← List.append_assoc]
+    simp only [List.append_assoc] at this ⊢
+    exact facts_trans hP1 this
 
 end Hist
 
